@@ -447,6 +447,27 @@ Theorem next_swap_delivers_pending cfg steps :
   w_batches (wrun cfg (steps ++ [Swap])) = w_batches (wrun cfg steps) ++ [w_ch (wrun cfg steps)].
 Proof. unfold wrun. rewrite fold_left_app. reflexivity. Qed.
 
+(* a delivered batch does not depend on what happens after its swap: later steps only append
+   batches *)
+Lemma wstep_batches_grow cfg steps : forall st,
+  exists l, w_batches (fold_left (wstep cfg) steps st) = w_batches st ++ l.
+Proof.
+  induction steps as [|s steps IH]; intros st; cbn [fold_left].
+  - exists []. now rewrite app_nil_r.
+  - destruct (IH (wstep cfg st s)) as [l Hl]. rewrite Hl.
+    destruct s as [e|]; cbn [wstep w_batches]; [exists l; reflexivity|].
+    exists (fst (swap (w_ch st)) :: l). now rewrite <- app_assoc.
+Qed.
+
+Theorem delivered_batches_stable cfg steps more k b :
+  nth_error (w_batches (wrun cfg steps)) k = Some b ->
+  nth_error (w_batches (wrun cfg (steps ++ more))) k = Some b.
+Proof.
+  intros H. unfold wrun in *. rewrite fold_left_app.
+  destruct (wstep_batches_grow cfg more (fold_left (wstep cfg) steps w_init)) as [l ->].
+  rewrite nth_error_app1; [exact H|]. apply nth_error_Some. rewrite H. discriminate.
+Qed.
+
 (* ConfigMap data chain *)
 Theorem configmap_chain cfg steps k b b' :
   nth_error (w_batches (wrun cfg steps)) k = Some b ->
